@@ -54,7 +54,55 @@ class Kernel:
 
 def load():
     m = build.load_unit(UNIT)
-    return m, Kernel(m)
+    K = Kernel(m)
+    check_no_queue_surgery(m, K)
+    return m, K
+
+
+def check_no_queue_surgery(m, K):
+    """Representation anchor of the scheduler rules: fibre.c changes its run queue and timer queue through the list operations only
+    (the rules are who-may-call / ordering rules over those calls).  A function that stores to kernel.runq / kernel.timerq members or
+    to a node's next pointer itself (an open-coded splice) may be perfectly right, but which fibres it moves is then not something
+    these rules can read: the verdict is 'inconclusive', not a violation."""
+    from .. import flow
+    for fn in m.defined_functions():
+        if fn.name in LINK_WRITERS_EXEMPT:
+            continue
+        for i in fn.insts():
+            if i.op == "store":
+                ptr, size = i.ops[1], i["size"]
+            elif i.op == "call" and isinstance(i.callee, str) and i.callee.startswith(("llvm.memcpy", "llvm.memmove", "llvm.memset")):
+                ptr, size = i.args[0], None
+            else:
+                continue
+            try:
+                pp = flow.resolve_ptr(ptr, m)
+            except AnalysisError:
+                continue
+            what = None
+            if pp.root.k == "global" and pp.root.name == "kernel" and not pp.var:
+                for q in ("runq", "timerq"):
+                    o, sz = K.members[q]
+                    if o <= pp.off < o + sz:
+                        what = "kernel.%s" % q
+            elif i.op == "store" and (ptr.ty or "") in ("%struct.list_node**", "%struct.list_node_t**") and i.ops[0].ty in ("%struct.list_node*", "%struct.list_node_t*"):
+                # a store of a node pointer through a pointer into a node or a list head: node->next = ... / list->head = ...
+                v = ptr
+                owner = None
+                for _ in range(8):
+                    if v.k == "inst" and v.inst is not None and v.inst.op in ("getelementptr", "bitcast"):
+                        v = v.inst.ops[0]
+                        if (v.ty or "") in ("%struct.list_node*", "%struct.list_node_t*", "%struct.fibre*", "%struct.list_t*"):
+                            owner = v.ty
+                            break
+                    else:
+                        break
+                if owner and pp.root.k != "alloca" and not (pp.root.k == "inst" and pp.root.inst is not None and pp.root.inst.op == "alloca"):
+                    what = "a queue link (%s)" % owner.rstrip("*")
+            if what:
+                raise AnalysisError("anchor vanished: %s writes %s directly at %s (open-coded queue manipulation): the scheduler rules read "
+                                    "the queues' contents from the list operations called on them and have no model of a hand-written "
+                                    "splice" % (fn.name, what, i.loc))
 
 
 def calls_on(p):
